@@ -148,6 +148,10 @@ func ResponseEncoder(ctx context.Context, w http.ResponseWriter) Encoder {
 				default:
 					enc = json.NewEncoder(w)
 				}
+			} else {
+				// The designed content type is not a valid media type, default
+				// to JSON as documented.
+				enc, mt = negotiate("")
 			}
 			SetContentType(w, mt)
 			return enc
